@@ -442,3 +442,50 @@ func TypeNamedV(name string) VPat {
 		return n != nil && n.Obj().Name() == name
 	}}
 }
+
+// DynType matches a dynamic call (through a function value) whose static type is a named type with this name.
+func DynType(name string) Callee {
+	return Callee{Desc: "dynamic call of a " + name + " value", M: func(cc *ssa.CallCommon) bool {
+		if cc.IsInvoke() || cc.StaticCallee() != nil {
+			return false
+		}
+		n := recvNamed(cc.Value.Type())
+		return n != nil && n.Obj().Name() == name
+	}}
+}
+
+// FieldPathEnds reports whether v is a load of a field chain ending in the given field names (e.g. "Internal","Address").
+func FieldPathEnds(v ssa.Value, names ...string) bool {
+	if v == nil {
+		return false
+	}
+	v = stripConv(v)
+	i := len(names) - 1
+	for depth := 0; depth < 12 && i >= 0; depth++ {
+		switch x := v.(type) {
+		case *ssa.UnOp:
+			if x.Op != token.MUL {
+				return false
+			}
+			v = x.X
+		case *ssa.FieldAddr:
+			if !fieldNameIs(x.X.Type(), x.Field, "", names[i]) {
+				return false
+			}
+			i--
+			v = x.X
+		case *ssa.Field:
+			if !fieldNameIs(x.X.Type(), x.Field, "", names[i]) {
+				return false
+			}
+			i--
+			v = x.X
+		default:
+			return false
+		}
+	}
+	return i < 0
+}
+
+// StripConv removes interface/type conversions around a value.
+func StripConv(v ssa.Value) ssa.Value { return stripConv(v) }
